@@ -164,6 +164,29 @@ def data_inverse(ck, F):
                         if int(v) == 34 and pc.dominates(tgt, c.bb):
                             pushes_quote = True
     ck.note("data_renderer_template", tpl)
+    # every way a String item is rendered must be the quoted template (anything else cannot be shown to re-parse)
+    from lib import path_records
+    unq = 0
+    n_str = 0
+    for r in path_records(rd):
+        is_str = any(val == "String" for (_t, _ps, val, _s) in r["decisions"])
+        if not is_str:
+            continue
+        n_str += 1
+        quoted = False
+        for c in r["calls"]:
+            if c.callee.endswith("Arguments::new"):
+                for a in c.args:
+                    e = strip_refs(rd.expr(a))
+                    if e[0] == "const" and e[1].get("text", "").startswith('b"') and \
+                            tables.fmt_template(e[1]["text"]) == ['"', None, '"']:
+                        quoted = True
+        if not quoted:
+            unq += 1
+    ck.require(n_str >= 1 and unq == 0, "C14:DATA-RENDER:strings-always-quoted", "DATA renderer vs parser",
+               "every path that renders a string item writes it between double quotes",
+               "the DATA renderer can write a string item without quotes (%d of %d String paths): an item that looks like a "
+               "number (`DATA \"007\"`) or carries significant blanks reloads as a different item" % (unq, n_str), rd.span)
     if quotes_always and not escapes and pushes_quote:
         ck.bad("C14:DATA-QUOTE:data::data_elements_to_string", "DATA renderer vs parser",
                "the DATA renderer wraps every string item in double quotes unconditionally, but DataParser::parse_char can "
